@@ -460,7 +460,7 @@ def r5(ctx):
 
         sc = _short_circuit_atoms(sub)
         facts = ga | sc
-        nonempty = any((src, True) in facts for src in srcs) or ("distances", True) in facts or ("0 == len(distances)", False) in facts
+        nonempty = any((src, True) in facts for src in srcs) or ("distances", True) in facts
         if k == 0:
             ok = nonempty and len(srcs) == 1
             msg = "distances[0] is only evaluated after the candidate list was found non-empty"
